@@ -1,4 +1,5 @@
 import Mouette.Generated.C03P
+import Mouette.Generated.C03B
 import Mouette.Props.C03Source
 /-!
 # C03 (round 7) — single-return bodies of `volume.py` compiled into `Generated/C03P.lean`, and their bridges
@@ -89,5 +90,38 @@ theorem is_edge_on_border_bridge (m : Mesh) (h4 : AllTets m) (e u v : Nat) :
 example : C03P.common_face Mouette.Props.C03.twoTets 0 1 = some 0 ∧ C03P.in_cell_index Mouette.Props.C03.twoTets 1 4 = some 3
     ∧ C03P.in_cell_index Mouette.Props.C03.twoTets 0 4 = none ∧ C03P.in_cell_face_index Mouette.Props.C03.twoTets 1 0 = some 3
     ∧ C03P.is_edge_on_border Mouette.Props.C03.twoTets 1 = true := by decide +kernel
+
+/-! ## round 9: `cell_to_edge`, `boundary_mesh` -/
+
+theorem foldl_append_isSome (g : Nat → Option Nat) (l : List Nat) (acc : List Nat) :
+    l.foldl (fun acc j => if (g j).isSome = true then acc ++ [(g j).getD 0] else acc) acc = acc ++ l.filterMap g := by
+  induction l generalizing acc with
+  | nil => simp
+  | cons a r ih =>
+    simp only [List.foldl, ih, List.filterMap_cons]
+    cases h : g a <;> simp
+
+/-- **`cell_to_edge(c)`** as the source builds the entry `_adjC2E[c]` = the hand model's `Mesh.cellToEdge` -/
+theorem cell_to_edge_bridge (m : Mesh) (c : Nat) : C03P.cell_to_edge m c = m.cellToEdge c := by
+  unfold C03P.cell_to_edge Mesh.cellToEdge
+  simp only []
+  have h1 : ∀ (i : Nat) (acc : List Nat),
+      (List.range i).foldl (fun acc x3 =>
+        if (m.edgeId ((m.cell c).getD i 0) ((m.cell c).getD x3 0)).isSome = true
+        then acc ++ [(m.edgeId ((m.cell c).getD i 0) ((m.cell c).getD x3 0)).getD 0] else acc) acc
+      = acc ++ (List.range i).filterMap (fun j => m.edgeId ((m.cell c).getD i 0) ((m.cell c).getD j 0)) :=
+    fun i acc => foldl_append_isSome (fun j => m.edgeId ((m.cell c).getD i 0) ((m.cell c).getD j 0)) _ acc
+  simp only [h1]
+  rw [flatMap_fold]; simp
+
+/-- **`boundary_mesh`**: `None` as long as the boundary connectivity is not enabled (the `AttributeError` on `None` is caught),
+the `mesh` attribute of the boundary connectivity afterwards — the very object, as the oracle's identity clause observes -/
+theorem boundary_mesh_spec {β μ : Type} (mesh : β → μ) :
+    C03P.boundary_mesh (none : Option β) mesh = none ∧ (∀ b : β, C03P.boundary_mesh (some b) mesh = some (mesh b))
+    ∧ C03P.boundary_mesh_reads = ("boundary_connectivity", "mesh") := ⟨rfl, fun _ => rfl, by decide⟩
+
+example : C03P.cell_to_edge Mouette.Props.C03.twoTets 0 = [5, 3, 1, 4, 0, 2] := by decide +kernel
+example : C03P.boundary_mesh (some (C03B.extract_surface_boundary Mouette.Props.C03.twoTets)) (·.obj0_faces.length) = some 6
+    ∧ C03P.boundary_mesh (none : Option Nat) (· + 1) = none := by decide +kernel
 
 end Mouette.Props.C03Small
